@@ -8,7 +8,6 @@
 use std::fmt::Display;
 
 use anyhow::Result;
-use regex::Captures;
 use regex::Regex;
 use regex::bytes::Regex as ByteRegex;
 
@@ -57,10 +56,8 @@ impl RuleMaker for RegexRule {
 }
 
 lazy_static! {
-    static ref VALID_REPETITION_QUANTIFIER: Regex = Regex::new("\\{([0-9]+(?:,[0-9]*)?)\\}")
+    static ref VALID_REPETITION_QUANTIFIER: Regex = Regex::new("^\\{[0-9]+(?:,[0-9]*)?\\}")
         .expect("valid repetition quantifier regex must compile");
-    static ref MOVED_REPETITION_QUANTIFIER: Regex =
-        Regex::new("<<<<(.+?)>>>>").expect("moved repetition quantifier regex must compile");
 }
 
 /// Compensate for misuse of repetition quantifiers, where curly brackets are used
@@ -78,35 +75,26 @@ lazy_static! {
 /// - Python does it so, existing cram tests may have it
 /// - Usability (?)
 pub(super) fn escape_misused_repetition_quantifier(expression: &str) -> String {
-    // pass 1: replace all valid repetition quantifiers temporarily
-    let expression = VALID_REPETITION_QUANTIFIER.replace_all(expression, |captures: &Captures| {
-        format!("<<<<{}>>>>", captures.get(1).unwrap().as_str())
-    });
-
-    // pass 2: escape all other curly expressions
-    let mut chars = expression.chars();
-    let mut expression = String::new();
-    while let Some(ch) = chars.next() {
-        match ch {
-            '\\' => {
-                expression.push(ch);
-                if let Some(ch2) = chars.next() {
-                    expression.push(ch2);
-                }
+    let mut escaped = String::new();
+    let mut rest = expression;
+    while let Some(ch) = rest.chars().next() {
+        let keep = if ch == '\\' {
+            // an escaped character stays as it is
+            ch.len_utf8() + rest[1..].chars().next().map_or(0, |ch2| ch2.len_utf8())
+        } else if let Some(quantifier) = VALID_REPETITION_QUANTIFIER.find(rest) {
+            // so does a valid repetition quantifier
+            quantifier.end()
+        } else {
+            // any other curly bracket is meant literally
+            if ch == '{' || ch == '}' {
+                escaped.push('\\');
             }
-            '{' | '}' => {
-                expression.push('\\');
-                expression.push(ch);
-            }
-            _ => expression.push(ch),
-        }
+            ch.len_utf8()
+        };
+        escaped.push_str(&rest[..keep]);
+        rest = &rest[keep..];
     }
-
-    // pass 3: restore valid repetitions
-    let expression = MOVED_REPETITION_QUANTIFIER.replace_all(&expression, |captures: &Captures| {
-        ["{", captures.get(1).unwrap().as_str(), "}"].join("")
-    });
-    expression.to_string()
+    escaped
 }
 
 /// Compensate for misuse of character classes, where unescaped square brackets
